@@ -20,13 +20,15 @@ pub fn probe<S: Src, const P: u8, const N: usize>(s: &mut S) {
             Err((MessageType::Invalid, DecodeError::Unknown))
         };
         chk!(s, P, C17, r == expect, "len>=3: Ok(byte[2]+4) iff byte[1]==0x0F else Err((Invalid, Unknown)); nothing else matters");
-        cov!(s, n == N && r.is_ok(), "probe: full-length input accepted");
-        cov!(s, n == 3 && r == Ok(259), "probe: 3-byte prefix announcing 259");
-        cov!(s, r.is_err(), "probe: wrong command code rejected");
+        cov!(s, P, C17, n == N && r.is_ok(), "probe: full-length input accepted");
+        cov!(s, P, C17, n == 3 && r == Ok(259), "probe: 3-byte prefix announcing 259");
+        cov!(s, P, C17, r.is_err(), "probe: wrong command code rejected");
     } else {
         chk!(s, P, C17, r.is_err(), "len<3 is rejected");
-        cov!(s, n == 0, "probe: empty input");
-        cov!(s, n == 2, "probe: 2-byte input");
+        cov!(s, P, C17, n == 0, "probe: empty input");
+        cov!(s, P, C17, n == 2, "probe: 2-byte input");
     }
-    chk!(s, P, C10, true, "get_length returned (panic-freedom is checked by the model checker)");
+    cov!(s, P, C10, n == 0, "probe: empty input");
+    cov!(s, P, C10, n == 2, "probe: two bytes");
+    cov!(s, P, C10, n == N && r.is_ok(), "probe: full-length input");
 }
